@@ -248,6 +248,59 @@ theorem dec_inc_inverse (sp : Space) (hwf : SpaceWF sp) (n : Name)
   rw [this]
   rfl
 
+/-- **An operator is a function of the configuration it is given**: what it returns (the new
+configuration and the number of modifications, or the error) does not depend on the state the
+controllers were left in by earlier operations (another member of a population, a
+`configure_catalogs`, an iteration, …). -/
+theorem operator_state_independent (sp : Space) (hwf : SpaceWF sp) (op : Op) (cfg : Config)
+    (hv : ValidCfg sp cfg) (k : Int) (ch : List Nat) (st st' : St) :
+    (applyOp sp st op cfg k ch).map (fun r => r.2) =
+      (applyOp sp st' op cfg k ch).map (fun r => r.2) :=
+  applyOp_state_independent hwf op hv k ch st st'
+
+/-- **The result is a neighbour of the configuration given**: every controller the operator
+does not name (for the random operators: does not draw) keeps the alternative it has in the
+configuration passed to the operator, whatever the previous state of the controllers. -/
+theorem operator_moves_only_named (sp : Space) (hwf : SpaceWF sp) (st : St) (op : Op)
+    (cfg : Config) (hv : ValidCfg sp cfg) (k : Int) (ch : List Nat) (st' : St) (cfg' : Config)
+    (r : Int) (h : applyOp sp st op cfg k ch = .ok (st', cfg', r)) (x : Controller) (hx : x ∈ sp)
+    (hnot : match op with
+      | .increase n => x.name ≠ n
+      | .decrease n => x.name ≠ n
+      | .pair n1 n2 _ => x.name ≠ n1 ∧ x.name ≠ n2
+      | .several _ => x.name ∉ drawn sp (min k (sp.length : Int)) ch) :
+    getSelection cfg' x.name = getSelection cfg x.name :=
+  applyOp_others hwf st op hv k ch st' cfg' r h x hx hnot
+
+/-- the pair operators returned by `prepare_operators` name two different controllers, so
+`pair_inverse` applies to each of them -/
+theorem prepared_pairs_distinct (sp : Space) (key : List Char) (n1 n2 : Name) (d : Dir)
+    (hmem : (key, Op.pair n1 n2 d) ∈ prepareOperators sp) : n1 ≠ n2 :=
+  prepareOperators_pairs sp (key, Op.pair n1 n2 d) hmem
+
+/-- **A pair move then the opposite pair move by the same step is the identity** (both
+controllers increased then decreased, or one increased and the other decreased, then the
+converse), for every step in ℤ and whatever the controllers' states before each call. -/
+theorem pair_inverse (sp : Space) (hwf : SpaceWF sp) (c1 c2 : Controller) (h1 : c1 ∈ sp)
+    (h2 : c2 ∈ sp) (hne : c1.name ≠ c2.name) (d : Dir) (cfg : Config) (hv : ValidCfg sp cfg)
+    (k : Int) (st st' : St) (ch ch' : List Nat) :
+    ∃ st₁ cfg₁ st₂, applyOp sp st (.pair c1.name c2.name d) cfg k ch = .ok (st₁, cfg₁, k) ∧
+      ValidCfg sp cfg₁ ∧
+      applyOp sp st' (.pair c1.name c2.name d.opposite) cfg₁ k ch' = .ok (st₂, cfg, k) :=
+  pair_back hwf h1 h2 hne d hv k st st' ch ch'
+
+/-- **Histories over a population**: operators applied to the members of a population of
+valid configurations, interleaved in any way with other operations on the expression
+(`configure_catalogs`, `select_expression`, `modify_controller`, iteration), from any initial
+state: whenever the sequence runs, the members stay valid, and they are exactly the members
+obtained by the operator calls alone, from any other state of the controllers. -/
+theorem population_history (sp : Space) (hwf : SpaceWF sp) (evs : List Event) (st : St)
+    (pop : List Config) (stE : St) (popE : List Config) (hp : ∀ c ∈ pop, ValidCfg sp c)
+    (hev : ∀ ev ∈ evs, EvOK sp ev) (h : runEvents sp st pop evs = .ok (stE, popE)) :
+    (∀ c ∈ popE, ValidCfg sp c) ∧
+      ∀ st', ∃ stE', runEvents sp st' pop (onlyApplies evs) = .ok (stE', popE) :=
+  runEvents_spec hwf evs st pop stE popE hp hev h
+
 /-! ### non-vacuity: a concrete expression with a shared controller and a nested catalog -/
 
 def nm (s : String) : Name := s.toList
@@ -286,6 +339,24 @@ example : (applyOp sp₀ St.init (.increase (nm "k")) [(nm "c3", nm "u"), (nm "k
 example : (setConfiguration sp₀ St.init [(nm "c3", nm "u"), (nm "k", nm "quad")]).map
     (fun st => (e₀.select st).map Expr.render)
     = .ok (some "Plus(Plus(Numeric(5),Numeric(1)),Numeric(9))") := by decide
+
+/-- a pair operator given (c3:u, k:lin) while the controllers show (c3:v, k:quad): the result is
+the neighbour of the configuration given -/
+example : (applyOp sp₀ ((St.init.set (nm "c3") 1).set (nm "k") 1) (.pair (nm "c3") (nm "k") .NE)
+    [(nm "c3", nm "u"), (nm "k", nm "lin")] 1 []).map (fun r => r.2)
+    = .ok ([(nm "c3", nm "v"), (nm "k", nm "quad")], 1) := by decide
+
+example : (nm "Pair_c3_k_SW", Op.pair (nm "c3") (nm "k") .SW) ∈ prepareOperators sp₀ := by decide
+
+/-- a population of two members; the expression is configured elsewhere between the calls -/
+example : (runEvents sp₀ St.init
+      [[(nm "c3", nm "u"), (nm "k", nm "lin")], [(nm "c3", nm "v"), (nm "k", nm "lin")]]
+      [.apply (.pair (nm "c3") (nm "k") .NE) 1 [] 0 0,
+       .configure [(nm "c3", nm "u"), (nm "k", nm "lin")],
+       .modifyCtrl (nm "k") 5 false,
+       .apply (.pair (nm "c3") (nm "k") .SW) 1 [] 0 1]).map (fun r => r.2)
+    = .ok [[(nm "c3", nm "v"), (nm "k", nm "quad")], [(nm "c3", nm "u"), (nm "k", nm "lin")]] := by
+  decide
 
 example : SelOK (nm "β_coût", nm "b10") := by
   unfold SelOK NameOK; decide
